@@ -636,6 +636,7 @@ fn build<K: Kmer + Send + Sync + 'static>(name: &'static str, _env: &Env) -> Vec
     ]
 }
 
+#[cfg(not(fuzzing))]
 pub fn jobs(env: &Env) -> Vec<Box<dyn Job>> {
     let mut out: Vec<Box<dyn Job>> = Vec::new();
     crate::kmers_ge4!(build, out, env);
